@@ -15,6 +15,10 @@ try:
         if r.returncode != 0:
             print(sid, 'PATCH DOES NOT APPLY', r.stderr[:100]); bad.append(sid); continue
         res = []
+        if not [c for c in meta['caught_by'] if c]:
+            print(sid, 'RECORDED AS NOT CAUGHT:', meta.get('not_caught_reason', '')[:100], flush=True)
+            subprocess.check_call(['git', '-C', wt, 'checkout', '-q', '--', '.'])
+            continue
         for chk in [c for c in meta['caught_by'] if c][:1]:
             env = dict(os.environ, VERIF_REPO=wt, VERIF_SHOW='1')
             p = subprocess.run(['/verif/check', chk, '--no-evidence'], capture_output=True, text=True, env=env)
